@@ -221,14 +221,17 @@ claim("C16",
       "every used id at its point of use (cid redirection through hash maps), select arity.",
       "toposort()'s HashMap index / outer loop, lower_table_decl and the Lowerer's node_mapping are not under contract.")
 
-prop("C13", ["span_units", "compose_errors", "span_frame", "lower_expr", "ident_kinds", "parse_files"], select={"ident_kinds": lambda n: n.split(".", 1)[1] in ("FR2",), "lower_expr": lambda n: n.split(".", 1)[1] in ("LS1",)},
+prop("C13", ["span_units", "compose_errors", "span_frame", "lower_expr", "ident_kinds", "parse_files", "lex_numbers"],
+     select={"ident_kinds": lambda n: n.split(".", 1)[1] in ("FR2",), "lower_expr": lambda n: n.split(".", 1)[1] in ("LS1",),
+             # WHO rejects a literal decides the units of the error's span: a number beyond f64 is rejected by the lexer, whose errors are located in characters (SU3)
+             "lex_numbers": lambda n: n.split(".", 1)[1] in ("NB2",)},
      not_covered="ariadne rendering (the quoted line), multi-file source ids, resolver / SQL-generation errors (their spans are copied from parser spans)")
 claim("C13",
       "PARTIAL. Proved on the real code: convert_lexer_error stores a span in CHARACTER units - the character positions of the byte offsets chumsky "
       "reported - with start <= end <= number of characters of the source and the given source id (SU3a-d, helpers inlined); compose_location reports "
       "exactly the line/column of span.start and span.end (SU1a-c); the parser's map_span yields the BYTE range of the tokens (SU2m). The linking "
       "obligation 'a byte offset inside the source is a character offset inside the source' (SU2) fails: recorded finding (panic / misplaced caret on "
-      "non-ASCII sources). a span that ErrorMessages::composed hands on names a source of the tree (compose_errors CP4); the end-of-input span and every span of at least one token has start <= end (span_units SU2o); with several files, every file is parsed with the id registered for its own path and the errors of the project are those of the files, in file order, uncompared (parse_files PF1-2: the loop of parser::parse); FRAME (syntactic, whole tree): the functions that MAKE a span - a `Span { .. }` value, Span::new, span arithmetic - are the lexer's, the parser's and span.rs's, each with its contract or reason; everything else copies spans (span_frame SF.maker rows: a new maker needs a contract of its own); lowering keeps the span of every expression (lower_expr LS1), which is what errors of the SQL back end are located with. NOT proved: rendering, multi-file ids.",
+      "non-ASCII sources). a span that ErrorMessages::composed hands on names a source of the tree (compose_errors CP4); the end-of-input span and every span of at least one token has start <= end (span_units SU2o); a number literal beyond the range of f64 never leaves the lexer as a literal (lex_numbers NB2), so its rejection is a LEXER error, located in character units by convert_lexer_error; with several files, every file is parsed with the id registered for its own path and the errors of the project are those of the files, in file order, uncompared (parse_files PF1-2: the loop of parser::parse); FRAME (syntactic, whole tree): the functions that MAKE a span - a `Span { .. }` value, Span::new, span arithmetic - are the lexer's, the parser's and span.rs's, each with its contract or reason; everything else copies spans (span_frame SF.maker rows: a new maker needs a contract of its own); lowering keeps the span of every expression (lower_expr LS1), which is what errors of the SQL back end are located with. NOT proved: rendering, multi-file ids.",
       "UTF-8 text model (char_len <= byte_len, monotone prefix counts), chumsky's span contract, ariadne's get_offset_line and error constructors are "
       "assumed by contract.")
 
